@@ -17,22 +17,24 @@ rl.on('line', (line) => {
   let pre = 'this.out = __out; this.o = {};';
   for (const n of job.names) pre += `this.${n} = 'G${n}'; this.o.${n} = 'P${n}';`;
   try {
-    vm.runInContext(pre, ctx, {timeout: 2000});
+    vm.runInContext(pre, ctx, {timeout: 30000});
     try {
-      vm.runInContext(job.text, ctx, {timeout: 2000});
+      vm.runInContext(job.text, ctx, {timeout: 30000});
     } catch (e) {
+      if (e && e.code === 'ERR_SCRIPT_EXECUTION_TIMEOUT') throw e;
       obs.push(e && e.name ? e.name : 'Error');
     }
     obs.push('--');
     for (const n of job.names) {
       try {
-        vm.runInContext(`__out(${n});`, ctx, {timeout: 2000});
+        vm.runInContext(`__out(${n});`, ctx, {timeout: 30000});
       } catch (e) {
+        if (e && e.code === 'ERR_SCRIPT_EXECUTION_TIMEOUT') throw e;
         obs.push('E');
       }
     }
   } catch (e) {
-    obs.push('HARNESS:' + e);
+    return;   // a timeout or a harness problem: no observation for this text
   }
   process.stdout.write(JSON.stringify({id: job.id, obs}) + '\n');
 });
